@@ -187,8 +187,8 @@ def c13(A):
             disc_cbs.setdefault(e["conn"], []).append(e["i"])
     ping_events = {}
     for c in A.conns.values():
-        pe = [("req", e["i"]) for e in c.pkts if e["pkt"] is not None and e["pkt"]["t"] == "PINGREQ"]
-        pe += [("resp", e["i"]) for e in c.ins if any(p.get("t") == "PINGRESP" for p in A.inbound_pkts(e))]
+        pe = [("req", e["i"], e["t"]) for e in c.pkts if e["pkt"] is not None and e["pkt"]["t"] == "PINGREQ"]
+        pe += [("resp", e["i"], e["t"]) for e in c.ins if any(p.get("t") == "PINGRESP" for p in A.inbound_pkts(e))]
         ping_events[c.idx] = sorted(pe, key=lambda x: x[1])
     tx_conn = {}
     for r in reqs:
@@ -222,12 +222,16 @@ def c13(A):
                     emin += n_out
                 if c.i_connack_ok is not None and c.i_connack_ok < i_s and c.keepalive:
                     emax += 1
-                    last = None
-                    for kind, i in ping_events[c.idx]:
+                    # deadlines of PINGREQs sent since the last PINGRESP and not yet expired (the
+                    # next PINGREQ goes out at the very instant the previous deadline expires)
+                    open_pings = []
+                    for kind, i, t in ping_events[c.idx]:
                         if i < i_s:
-                            last = kind
-                    if last == "req":
-                        emax += 1
+                            if kind == "resp":
+                                open_pings = open_pings[:-1]   # answers the latest PINGREQ only
+                            else:
+                                open_pings.append(t)
+                    emax += min(2, sum(1 for t in open_pings if t + c.keepalive >= sn["t"] - 1e-6))
             for r in connect_reqs.get(c.idx, []):
                 if r.i_ret < i_s and not r.fired_before(i_s):
                     emax += 1
